@@ -1,9 +1,15 @@
-(* C04 — the equivalence checker decides equivalence correctly in both directions (decision rule).
-   PARTIAL: that the MPO handed to the verdict is U1.U2^dagger (zone-by-zone construction with SVD re-splitting and
-   long-range gate MPOs) is tied numerically (dense product for arbitrary pairs) and not mechanised. *)
+(* C04 — the equivalence checker decides equivalence correctly in both directions.
+   Mechanised: the decision rule, and the zone-by-zone construction as a schedule: for every pair of circuits (one- and two-qubit
+   gates at any distance) and either sweep order the loop ends, applies every gate of circuit 1 exactly once from the left and
+   every gate of circuit 2 exactly once, conjugated, from the right, in orders that preserve all dependencies, so the value held is
+   U1.U2^dagger in every semantics where gates on disjoint qubits commute.
+   PARTIAL: that one left/right application on the merged two-site tensor (and a long-range gate's MPO, with the SVD
+   re-splitting) multiplies the represented operator by that gate is tied numerically (dense product for arbitrary pairs). *)
 From Coq Require Import Reals PrimFloat.
 From Coquelicot Require Import Coquelicot.
+From Coq Require Import List.
 From Yaqs Require Import Base.Num Model.Verdict Proofs.NoiseAttribP Proofs.VerdictP Gen.SmallGen Proofs.SmallGenP.
+From Yaqs Require Import Model.DigitalLoop Proofs.DigitalLoopP Model.Checker Proofs.CheckerP.
 
 Theorem C04_verdict_sound : forall t n f e, (t / 2 ^ n < f - e)%R -> verdict RN t n f e = false.
 Proof. exact verdict_sound. Qed.
@@ -28,3 +34,34 @@ Print Assumptions C04_source_verdict_is_model.
 Theorem C04_source_allowance_nonnegative : PrimFloat.leb 0%float verdict_eps = true.
 Proof. exact verdict_eps_nonneg. Qed.
 Print Assumptions C04_source_allowance_nonnegative.
+
+(* ---- the construction of the MPO (mpo_utils.iterate) ---- *)
+(* [prefs] = the order in which Qiskit lists the nodes of a DAG layer (decides which of several long-range gates of one front layer is
+   treated first); every statement holds for every such order *)
+Theorem C04_checker_terminates : forall prefs nq odd_first a b, (2 <= nq)%nat -> (forall g, In g a \/ In g b -> gate_ok nq g) ->
+  iterate_with prefs (length a + length b) (sweep_of nq odd_first) (init a b) <> None.
+Proof. exact checker_terminates. Qed.
+Print Assumptions C04_checker_terminates.
+
+Theorem C04_checker_applies_each_gate_once_in_order : forall prefs sweep fuel s s', wf s -> iterate_with prefs fuel sweep s = Some s' ->
+  c1 s' = nil /\ c2 s' = nil /\ rearr (virt L s) (side_log L (log s')) /\ rearr (virt R s) (side_log R (log s')).
+Proof. exact iterate_rearr. Qed.
+Print Assumptions C04_checker_applies_each_gate_once_in_order.
+
+Theorem C04_checker_builds_product : forall (M : Type) (op : M -> M -> M) (e : M) (star : M -> M),
+  (forall a b c, op a (op b c) = op (op a b) c) -> (forall a, op e a = a) -> (forall a, op a e = a) ->
+  (forall a b, star (op a b) = op (star b) (star a)) -> star e = e ->
+  forall sem : instr -> M, (forall a b, shares a b = false -> op (sem a) (sem b) = op (sem b) (sem a)) ->
+  forall prefs fuel sweep a b s, NoDup (map id a) -> NoDup (map id b) -> iterate_with prefs fuel sweep (init a b) = Some s ->
+  value M op e star sem (log s) = op (U M op e sem a) (star (U M op e sem b)).
+Proof. exact checker_builds_product. Qed.
+Print Assumptions C04_checker_builds_product.
+
+Local Open Scope nat_scope.
+Example C04_checker_example :
+  let a := (mk 0 G2 (0::3::nil)) :: (mk 1 G1 (1::nil)) :: (mk 2 G2 (1::2::nil)) :: nil in
+  let b := (mk 10 G2 (2::1::nil)) :: (mk 11 G1 (0::nil)) :: nil in
+  match iterate 5 (sweep_of 4 false) (init a b) with
+  | Some s => map (fun p => (match fst p with L => 0 | R => 1 end, id (snd p))) (log s) = (0,0)::(0,1)::(1,11)::(0,2)::(1,10)::nil
+  | None => False end.
+Proof. vm_compute. reflexivity. Qed.
